@@ -183,10 +183,17 @@ def run_mutant(unit, text, m, idx, rlimit=40, base_errors=frozenset()):
     path = os.path.join(d, name + ".rs")
     with open(path, "w") as fh:
         fh.write(text[:m["pa"]] + m["rep"] + text[m["pb"]:])
-    p = subprocess.run(["verus", name + ".rs", "--error-format=json", "--multiple-errors", "5", "--rlimit", str(rlimit)],
-                       cwd=d, capture_output=True, text=True)
+    from .run import run_with_timeout
+    p = run_with_timeout(["verus", name + ".rs", "--error-format=json", "--multiple-errors", "5", "--rlimit", str(rlimit)],
+                         d, None, int(os.environ.get("SOSV_MUTANT_TIMEOUT", "240")))
     status = "survived"
     msgs = []
+    if p.timed_out:
+        try:
+            os.remove(path)
+        except OSError:
+            pass
+        return ("base", []) if idx < 0 else ("undecided", ["wall-clock timeout"])
     for line in p.stderr.split("\n"):
         if not line.startswith("{"):
             continue
